@@ -524,8 +524,12 @@ func (c *c12Ctx) noteNamed(t reflect.Type, tj map[string]any, kind string) {
 		c.kinds[t.String()] = kind
 	} else {
 		c.unreg[t.String()] = true
+		c12UnregSeen[t.String()] = true
 	}
 }
+
+// defined types met (statically, through field/element types) that are not in the registry
+var c12UnregSeen = map[string]bool{}
 
 // leaf payload: the JSON text encoding/json produces (what the encoder stores in JSONValue)
 func c12Payload(v reflect.Value) string {
